@@ -13,7 +13,7 @@ SRC_DEPS = {"Overlaps": ["Overlaps"], "Intersection": ["Intersection"], "Extend"
 SRC_MODULES = [T + "Src." + n for n in SRC_DEPS]
 CFG = {
     "id": "C04",
-    "lean_modules": ["GeomV.C04.Proofs", "GeomV.C04.ProofsNaN", "GeomV.C04.ProofsMore", "GeomV.C04.ProofsNil", "GeomV.C04.ProofsNaNBox", "GeomV.C04.ProofsAfter", "GeomV.C04.ProofsNaNMember"] + TIE_MODULES + SRC_MODULES,
+    "lean_modules": ["GeomV.C04.Proofs", "GeomV.C04.ProofsNaN", "GeomV.C04.ProofsMore", "GeomV.C04.ProofsNil", "GeomV.C04.ProofsNaNBox", "GeomV.C04.ProofsAfter", "GeomV.C04.ProofsNaNMember", "GeomV.C04.ProofsTrace"] + TIE_MODULES + SRC_MODULES,
     "exe": "geomv_c04",
     "go_cmd": "c04",
     "stages": ["go:gen", "go:impl", "lean:judge"],
@@ -54,6 +54,8 @@ CFG = {
         # (nextS, After.lean) agrees with next; after Len() calls EVERY further call panics (except Point / a *Bounds without
         # points used directly: four stored corners, then panics for ever)
         "C04_nextS_next", "C04_points_after_fault", "C04_bounds_after_fault",
+        # … and the whole run of a fresh iterator as one statement: Len() vertices in storage order, then n panics, for every n
+        "C04_points_trace",
         # the executed coordinate type is an instance of the theorems
         "C04_exec", "FKey.instances_agree",
         # T1: definitions regenerated from bounds.go / point.go of the tree under test = the model's (rfl)
